@@ -605,6 +605,16 @@ def enum_grid(tier):
                                'expr': wrap({'k': 'numfiles', 'op': '==', 'n': n + off})}
                     yield {'tree': nodes, 'via': 'dc', 'path': '', 'rec': rec, 'grid': tname,
                            'expr': wrap({'k': 'matches', 'full': True, 'fc': fc, 'inline': False})}
+                    if prunes:
+                        # one model, two operands: the first looks at every file of the unpruned model, the second
+                        # derives the pruned model from the same model
+                        yield {'tree': nodes, 'via': 'dc', 'path': '', 'rec': rec, 'grid': tname,
+                               'expr': {'k': 'and', 'xs': [{'k': 'numfiles', 'op': '>=', 'n': 0},
+                                                           wrap({'k': 'numfiles', 'op': '==', 'n': n})]}}
+                        yield {'tree': nodes, 'via': 'dc', 'path': '', 'rec': rec, 'grid': tname,
+                               'expr': {'k': 'or', 'xs': [{'k': 'every', 'fm': {'k': 'const', 'v': False}},
+                                                          {'k': 'not', 'x': wrap({'k': 'numfiles', 'op': '==',
+                                                                                  'n': n})}]}}
                     if fc:
                         yield {'tree': nodes, 'via': 'dc', 'path': '', 'rec': rec, 'grid': tname,
                                'expr': wrap({'k': 'matches', 'full': True, 'fc': fc[1:], 'inline': False})}
